@@ -390,7 +390,7 @@ package block
 //@ pred SyncInv(m) := InvState(m) && m.store.height < 18446744073709551615
 
 //@ func (m *Manager) trySyncNextBlock(ctx, daHeight) (err)
-//@   property C02:kind:inv-establish,kind:inv-preserve,kind:pre,kind:frame,monotone,progress,inv,scan-start-kept
+//@   property C02:kind:inv-establish,kind:inv-preserve,kind:pre,kind:frame,monotone,progress,inv,inv-on-success,scan-start-kept
 //@   property C03:no-halt,validated
 //@   property C05:kind:crash,kind:frame,inv,state-lbh,state-persisted,monotone
 //@   requires [wiring] m.metrics != nil && m.headerCache != nil && m.dataCache != nil && m.store != nil
@@ -416,11 +416,40 @@ package block
 //@   ensures [progress] err == nil && !ctxDone(ctx) ==> m.headerCache.itemAt[m.store.height + 1] == 0 || m.dataCache.itemAt[m.store.height + 1] == 0
 //@   ensures [scan-start-kept] m.lastState.DAHeight == old(m.lastState.DAHeight) && (!m.store.faulty ==> m.store.stateAt.daHeight == old(m.lastState.DAHeight))
 //@   ensures [inv] !m.store.faulty ==> SyncInv(m)
+//@   ensures [inv-on-success] err == nil ==> SyncInv(m)
 //@   observe ab := call applyBlock
 //@   ensures [no-halt] err != nil ==> ctxDone(ctx) || m.store.faulty || (ab && ab.res1 != nil)
 //@   crash_inv [height-not-ahead] m.store.hasState && m.store.height <= m.store.stateAt.lastBlockHeight
 //@   crash_inv [state-at-most-one-ahead] m.store.stateAt.lastBlockHeight <= currentHeight + 1 && m.store.height >= currentHeight
 //@   crash_inv [state-has-block] m.store.stateAt.lastBlockHeight > m.store.height ==> m.store.has[m.store.stateAt.lastBlockHeight]
+
+
+// ---- C02: the sync event loop ----------------------------------------------------------------------
+// Per iteration: exactly one case runs; an item is cached only by the header or data case; whenever
+// an item was cached the node tries to apply the next block in the same iteration (this is what makes
+// any delivery order converge: the last missing part triggers the application); an error of that
+// attempt ends the loop through errCh; the timers' cases only signal the ingress loops.
+//@ func (m *Manager) SyncLoop(ctx, errCh)
+//@   property C02
+//@   requires [wiring] m.headerCache != nil && m.dataCache != nil && m.store != nil && m.metrics != nil && m.logger != nil && ctx != nil
+//@   requires [inv] SyncInv(m)
+//@   observe tsn := call trySyncNextBlock
+//@   observe si := call SetItem
+//@   observe ss := call SetSeen
+//@   observe sig := call sendNonBlockingSignalWithMetrics
+//@   modifies m.lastState, m.headerCache.itemAt, m.headerCache.seen, m.dataCache.itemAt, m.dataCache.seen,
+//@            durable m.store.height, durable m.store.stateAt, durable m.store.hasState,
+//@            durable m.store.has, durable m.store.hdrAt, durable m.store.hsigAt, durable m.store.signerAddrAt, durable m.store.signerKeyAt,
+//@            durable m.store.txsAt, durable m.store.dataMetaAt, durable m.store.sigAt,
+//@            heap "types.SignedHeader.signatureProvider"
+//@   loop 1 invariant [inv] SyncInv(m)
+//@   loop 1 invariant [one-case] recvCount("headerInCh") + recvCount("dataInCh") + recvCount("daTicker.C") + recvCount("blockTicker.C") + recvCount("metricsTicker.C") <= 1 && tsn.count <= 1
+//@   loop 1 invariant [cache-only-on-events] si.count > 0 ==> recvCount("headerInCh") + recvCount("dataInCh") == 1
+//@   loop 1 invariant [sync-after-caching] si.count > 0 ==> tsn.count == 1 && si.seq < tsn.seq
+//@   loop 1 invariant [seen-only-after-sync] ss.count <= 1 && (ss.count > 0 ==> tsn.count == 1 && tsn.res0 == nil && tsn.seq < ss.seq)
+//@   loop 1 invariant [ticks-signal] recvCount("daTicker.C") + recvCount("blockTicker.C") == 1 ==> sig.count >= 1 && tsn.count == 0 && si.count == 0
+//@   loop 1 invariant [monotone] m.store.height >= old(m.store.height)
+//@   ensures [monotone] m.store.height >= old(m.store.height)
 
 // ---- C03: admission ------------------------------------------------------------------------
 
@@ -543,7 +572,7 @@ package block
 // on a chain that starts now - no state, no submission watermarks - nothing counts as waiting for DA
 // submission, whatever the initial height is.
 //@ func NewManager(ctx, signer, config, genesis, store, exec, sequencer, da, logger, headerStore, dataStore, headerBroadcaster, dataBroadcaster, seqMetrics, gasPrice, gasMultiplier, managerOpts) (m, err)
-//@   property C04:height-is-state,height-never-lowered C05:height-is-state,height-never-lowered C06:nothing-pending-on-fresh-chain,watermarks-only-raised C08:nothing-pending-on-fresh-chain
+//@   property C04:height-is-state,height-never-lowered C05:height-is-state,height-never-lowered C06:nothing-pending-on-fresh-chain,watermarks-only-raised C07:da-included-restored,da-included-zero-on-fresh-chain C08:nothing-pending-on-fresh-chain
 //@   requires [wiring] store != nil && exec != nil && logger != nil
 //@   requires [genesis] genesis.InitialHeight >= 1
 //@   requires [height-range] store.height < 18446744073709551615
@@ -557,6 +586,9 @@ package block
 //@   ensures [nothing-pending-on-fresh-chain] err == nil && !store.faulty && !old(store.hasState) && old(store.height) < genesis.InitialHeight
 //@                       && !old(store.metaHas["last-submitted-header-height"]) && !old(store.metaHas["last-submitted-data-height"])
 //@                       ==> m.pendingHeaders != nil && m.pendingData != nil && NumPending(m.pendingHeaders.base) == 0 && NumPending(m.pendingData.base) == 0
+// C07: the DA-included height a restarted node reports is the persisted one (never less), and a new chain starts at 0
+//@   ensures [da-included-restored] err == nil && !store.faulty && old(store.metaHas["d"]) && blen(old(store.meta["d"])) == 8 ==> m.daIncludedHeight == le64dec(old(store.meta["d"]))
+//@   ensures [da-included-zero-on-fresh-chain] err == nil && !store.faulty && !old(store.metaHas["d"]) ==> m.daIncludedHeight == 0
 //@   ensures [watermarks-only-raised] err == nil && old(store.metaHas["last-submitted-header-height"]) && !store.faulty
 //@                       ==> m.pendingHeaders.base.lastHeight >= le64dec(old(store.meta["last-submitted-header-height"]))
 
